@@ -92,6 +92,12 @@ func main() {
 		default:
 			fmt.Fprintln(os.Stderr, "unknown or unclaimed property", id)
 		}
+	case "selftest":
+		n := 48
+		if os.Getenv("VERIF_TIER") == "thorough" {
+			n = 200
+		}
+		code = schedsim.SelfTest(core.Seed(), n)
 	case "replay":
 		if len(os.Args) < 3 {
 			usage()
